@@ -1,6 +1,6 @@
 """C11 configuration for ./check (see checks/propcfg.py for the keys)."""
 CFG = {
-    "modules": ["VaxisModel.Props.C11", "VaxisModel.Props.C01App", "VaxisModel.Props.C11Gfx", "VaxisModel.Props.C11Display", "VaxisModel.Witness.C11ShowCursor", "VaxisModel.Witness.F111"],
+    "modules": ["VaxisModel.Props.C11", "VaxisModel.Props.C01App", "VaxisModel.Props.C11Gfx", "VaxisModel.Props.C11Display", "VaxisModel.Witness.C11ShowCursor", "VaxisModel.Witness.F111", "VaxisModel.Props.C11Body"],
     "extractors": ["C11", "C07", "C20"],
     "drivers": ["C11"],
     "stateful": False,
